@@ -46,7 +46,7 @@ def run(rep, tier):
 
     with ThreadPoolExecutor(nproc) as ex:
         results = list(ex.map(drive, range(nproc)))
-    total = nsucc = nrefused = nquad = 0
+    total = nsucc = nrefused = nquad = nbarrier = ntiny = ninstalled = 0
     for crashed, o, bad, acc, rejects, rs in results:
         if crashed:
             rep.violation("line-search driver crashed", payload={"output": o[-3000:]})
@@ -55,7 +55,7 @@ def run(rep, tier):
         total += acc
         for rj in rejects:
             rep.violation("line search [%s] violates %s: %s" % (rj["search"], rj["name"], rj["ret"]), payload=rj)
-        cur = None
+        cur, invalid = None, False
         for x in rs:
             if x["e"] == "Search":
                 cur = x
@@ -63,15 +63,28 @@ def run(rep, tier):
                 nsucc += 1 if x["ok"] else 0
                 nrefused += 1 if (cur and not cur["descent"]) else 0
                 nquad += 1 if (cur and cur["quadratic"] and cur["defaults"] and cur["descent"]) else 0
-    if not rep.violations and (nsucc < 500 or nrefused < 100 or nquad < 100):
-        raise CheckError("line-search coverage too small: %d successes, %d refusals, %d default quadratic searches" % (nsucc, nrefused, nquad))
+                nbarrier += 1 if (cur and cur.get("extreme") == 1 and cur["descent"] and invalid) else 0
+                ntiny += 1 if (cur and cur.get("extreme") == 2 and cur["descent"]) else 0
+                ninstalled += 1 if (cur and cur.get("installed") and cur["descent"]) else 0
+            elif x["e"] == "Trial":
+                invalid = invalid or not x["finite"]
+            if x["e"] == "Search":
+                invalid = False
+    if not rep.violations and (nsucc < 500 or nrefused < 100 or nquad < 100 or nbarrier < 100 or ntiny < 100 or ninstalled < 100):
+        raise CheckError("line-search coverage too small: %d successes, %d refusals, %d default quadratic searches, %d searches with trials outside "
+                         "the objective's domain, %d with tiny directions, %d with the solvers' tolerance pairs"
+                         % (nsucc, nrefused, nquad, nbarrier, ntiny, ninstalled))
     s0 = [x for x in results[0][5][:40]]
     rep.sample({"search": s0[:8]})
     rep.add(traces_validated_against_impl=total, evaluations=total, distinct_nontrivial=nsucc, successes=nsucc, non_descent_refusals=nrefused,
-            default_quadratic_searches=nquad,
+            default_quadratic_searches=nquad, searches_with_invalid_trials=nbarrier, tiny_direction_searches=ntiny,
+            searches_with_solver_tolerances=ninstalled,
             rule="one search = (strategy, (c1,c2) anywhere in the domain, strategy parameters incl. interpolation and max_iterations, smooth "
                  "registered function 1..16 dims or random convex quadratic, x radius 1e-2..1e3, perturbed negative gradient / quasi-Newton-like "
-                 "/ ascent / orthogonal direction, t0 in [1e-3,1e3] or NaN/inf); non-trivial = searches reporting success")
+                 "/ ascent / orthogonal direction, t0 in [1e-3,1e3] or NaN/inf; a sixth of the searches with the tolerance pairs the solvers install, "
+                 "(1e-4, 0.9) and (0.1, 0.9); a tenth on an objective that is +inf / NaN outside a ball whose radius is relative to the first trial "
+                 "step, a tenth along directions 1e-15..1e-9 times the gradient - the step pre-adjustment loops of lsearchk_t::get); "
+                 "non-trivial = searches reporting success")
     rep.assume("Armijo / Wolfe / strong Wolfe / approximate Wolfe are recomputed by the driver from the counting wrapper's (f, g) with a slack of "
                "64 ulp of the compared magnitudes ('up to rounding')",
                "More-Thuente and CG_DESCENT are held to their conditions only on convex quadratics with default settings (their 'no further "
